@@ -513,7 +513,7 @@ func genHsM(g *genCtx) {
 
 func genSendM(g *genCtx) {
 	sp := learnSession(1, 1)
-	alphabet := "FEBTXUVWSNCPAHJQGKRML"
+	alphabet := "FEBTXUVWSNCPAHJQGKRMZL"
 	depth := 2
 	n := 0
 	var rec func(prefix string, d int)
@@ -611,6 +611,9 @@ func replyFor(g *genCtx, sp sessParams, class byte, fn, cmdNo byte, prefix []byt
 		r = b.seal(rsp(fn, cmdNo, 0, body))
 		i := 4 + g.rng.Intn(len(r)-4-16)
 		r[i] ^= 1 << g.rng.Intn(8)
+	case 'Z': // authentic response with one bit of the RMCP header flipped (the four bytes the AuthCode does not cover)
+		r = b.seal(rsp(fn, cmdNo, 0, body))
+		r[g.rng.Intn(4)] ^= 1 << g.rng.Intn(8)
 	case 'P': // valid AuthCode over a payload whose confidentiality pad is wrong
 		msg := rsp(fn, cmdNo, 0, body)
 		padn := 15 - len(msg)%16
@@ -726,7 +729,7 @@ func strayReply(g *genCtx, fn, cmdNo byte, prefix []byte) (fn2, cmd2 byte, prefi
 }
 
 func genSend(g *genCtx) {
-	alphabet := "FEBTXUVWSNCPAHJQGKRML"
+	alphabet := "FEBTXUVWSNCPAHJQGKRMZL"
 	suites := [][2]byte{{1, 1}, {3, 4}, {2, 2}, {1, 4}, {3, 1}}
 	depth := 3
 	if g.thorough() {
